@@ -12,6 +12,7 @@ import XL.Model.Look
 import XL.Model.Fn
 import XL.Model.Blanks
 import XL.Model.CText
+import XL.Model.RText
 /-!
 # Request dispatcher of the executable model
 -/
@@ -193,6 +194,7 @@ def answerParse (cmd : String) (args : List String) : Option String :=
   | "cbook", _ => CircProto.answerCBook args
   | "cycles", _ => CircProto.answerCycles args
   | "ctext", _ => CTextProto.answerCText args
+  | "rtext", _ => CTextProto.answerRText args
   | "blanks", c :: nl :: rest => do
       -- `blanks compact nL L… (len cell…)*` : the listed cells after range assembly, in listing order
       let c' ← c.toNat?; let n ← nl.toNat?
